@@ -156,6 +156,22 @@ Theorem C02_interim_heads_delivered : forall meth ims fuel w r rest,
 Proof. exact interim_heads_delivered. Qed.
 Print Assumptions C02_interim_heads_delivered.
 
+(* 101 Switching Protocols (Upgrade + "Connection: upgrade"): the head is delivered like any
+   other and Body hands the caller exactly the bytes that follow it, until the peer closes *)
+Theorem C02_h1_upgrade_delivery : forall meth m sizes reason fs u us rest,
+  reason_ok reason = true -> fields_ok fs -> pragma_neutral (map field_of fs) ->
+  no_field K_TE (map field_of fs) -> no_field K_CL (map field_of fs) ->
+  values_of K_UPGRADE (map field_of fs) = u :: us -> u <> [] ->
+  header_values_contain_token (values_of K_CONNECTION (map field_of fs)) (bs "Upgrade") = true ->
+  wants_close (map field_of fs) = false ->
+  exists r,
+    h1_exchange meth m sizes (render_head 101 reason fs ++ rest) =
+      Some {| d_resp := r; d_body := switch_body r rest;
+              d_api := run_mode m 101 sizes {| rd_rem := rest; rd_end := BEof |} |} /\
+    r_code r = 101%Z /\ r_header r = collect (map field_of fs).
+Proof. exact h1_upgrade_delivery. Qed.
+Print Assumptions C02_h1_upgrade_delivery.
+
 (* ---------- HTTP/2, HTTP/3 ---------- *)
 
 (* h2_body_concat: EVERY partition into DATA frames, ANY padding, declared length or not *)
